@@ -681,3 +681,35 @@ def timeout_budget(w, fn_node=None):
                         return norm.raw(b)
             return "deadline:" + norm.raw(ce.args[0])
     return None
+
+
+def find_path_edges(g, starts, is_target, avoid, avoid_edge, model=EXPLICIT):
+    """Like CFG.find_path, with a predicate on edges: avoid_edge(node, successor, kind) -> True to leave the edge out (e.g. the False edge of
+    a test that an earlier statement on the path has established)."""
+    prev = {}
+    work = []
+    for s_ in starts:
+        for t, k in g.succs(s_, model):
+            if not avoid_edge(s_, t, k) and t.id not in prev:
+                prev[t.id] = s_
+                work.append(t)
+    startids = {s_.id for s_ in starts}
+    while work:
+        n = work.pop(0)
+        if avoid(n):
+            continue
+        if is_target(n):
+            path = [n]
+            cur = n
+            while cur.id in prev:
+                p_ = prev[cur.id]
+                path.append(p_)
+                if p_.id in startids:
+                    break
+                cur = p_
+            return list(reversed(path))
+        for t, k in g.succs(n, model):
+            if t.id not in prev and not avoid_edge(n, t, k):
+                prev[t.id] = n
+                work.append(t)
+    return None
